@@ -21,6 +21,21 @@ CLAIMS = {
         design="DESIGN.md §4 C18, §3.4"),
 }
 
+CLAIMS["C06"] = dict(
+    category="model_checking",
+    text=("NifGraph.tla is an executable reference model of the indexed block graph and its header mirror, with each public "
+          "edit call transcribed (X_Exact) and the property stated as a step relation over (pre, witness, post) plus the "
+          "HeaderMirror state invariant. TLC explores the full reachable closure of add/delete/replace/set-order/delete-by-type/"
+          "prune/prune-nodes histories on <= 3 blocks (with and without a size table); every transition is exported and replayed "
+          "on live NifFile objects along the same paths, with SaveRaw+Load equivalence checked in every node; seeded random edit "
+          "sequences on the 26 sample files are trace-validated against the same relations. Exhaustive on the small scope, "
+          "sampled on real files."),
+    note=("Trusted: TLC, the projection (GetChildIndices/GetPtrs + an independent parser of NiHeader::Put output), the uid hook "
+          "(H1) for identities in traces. Operations are called with in-range indices and well-formed references; dangling "
+          "references belong to C15. A replacement block inherits the identity of its slot."),
+    technique="TLA+ state machine of the block graph, TLC exhaustive exploration, every transition replayed on the implementation; TLC trace validation of recorded steps",
+    design="DESIGN.md §3.1, §4 C06")
+
 NOT_YET = {}
 
 
